@@ -229,6 +229,25 @@ def oracle(ck, variants):
     ck.extra['failing_cell_names'] = sorted({(f['lib'], f['cell']) for f in failing})
 
 
+def count_tie(ck):
+    """audit 2, F10: the per-library key / row counts of the generated table (driver `techcount` = Tech.libKeys / Tech.libRows, the
+    functions of the theorem C19.cells_count) against the five REAL library objects: len(tlib.cells) and the number of distinct
+    implementation circuits. A truncated or duplicated dump is a broken tie."""
+    try:
+        ans = common.run_driver(['techcount'])[0]
+        f = dict(x.split('=', 1) for x in ans.split(' '))
+        got_keys = [int(x) for x in f['keys'].split(',')]
+        got_rows = [int(x) for x in f['rows'].split(',')]
+    except Exception as ex:
+        ck.broken_tie('C19 cardinality: driver techcount', f'{type(ex).__name__}: {ex}'[:300]); return
+    real_keys = [len(_lib(ln).cells) for ln in LIBS]
+    real_rows = [len({id(v[0]) for v in _lib(ln).cells.values()}) for ln in LIBS]
+    for ln, a, b in zip(LIBS, got_keys, real_keys): ck.hist[f'count-hyp:{ln}:keys={a}/{b}'] += 1
+    if got_keys != real_keys or got_rows != real_rows or f.get('nodup') != 'true' or f.get('libs') != 'true' or len(got_keys) != len(LIBS):
+        ck.broken_tie('C19 cardinality: generated table vs len(tlib.cells) of the real library objects',
+                      f'table keys {got_keys} rows {got_rows} nodup={f.get("nodup")} libs={f.get("libs")}; real keys {real_keys} rows {real_rows}')
+
+
 def run(ck):
     t1, t2, t3 = theorems()
     # separate modules: a defect in the function of one family must not hide the theorems about pins,
@@ -237,6 +256,7 @@ def run(ck):
     ck.prove([], TARGETS[1:2], t2)
     ck.prove([], TARGETS[2:], t3)
     variants = ['plain'] if ck.tier == 'quick' else ['plain', 'reuse', 'strip', 'cb', 'm4', 'm8']
+    count_tie(ck)
     oracle(ck, variants)
     if ck.broken and not ck.violations and ck.tier == 'quick':
         oracle(ck, ['reuse', 'strip', 'cb', 'm4', 'm8'])
